@@ -387,6 +387,11 @@ var c01HOs = []c01HO{
 	{"(length (select 'list (lambda (e) (equal? e '(+ 1 2))) S))", "1", "", "", ""},
 	{"(thread-last S (map 'list (lambda (e) e)) (select 'list symbol?))", "'(b a)", "", "", ""},
 	{"(let ((m (sorted-map))) (map 'list (lambda (e) (assoc! m e 1)) S2) (keys m))", "'('a 'b 'c)", "", "", ""},
+	// threading: each step threads the VALUE of the previous one, as it is
+	{"(thread-first '(a) (car) (list 1))", "'(a 1)", "", "", ""},
+	{"(thread-last '(a) (car) (list 1))", "'(1 a)", "", "", ""},
+	{"(thread-first S (cdr) (cdr) (car) (list 'x))", "'((+ 1 2) 'x)", "", "", ""},
+	{"(thread-last S2 (map 'list (lambda (e) e)) (select 'list symbol?) (reverse 'list))", "'(a c b)", "", "", ""},
 	// a closure keeps the environment it was CREATED in: for a lambda written in a let / let*
 	// initialiser that is the enclosing scope, not the scope the let is about to create
 	{"(let ((q 1)) (let ((p (lambda () q)) (q 2)) (funcall p)))", "1", "", "C01-let-initialiser-closure-scope", "2"},
